@@ -845,12 +845,17 @@ def find_function(tree, cls, name):
     return fs[0]
 
 
-def translate_module(modname, functions, global_table, out_name, reflect_checks, opts=None):
+def translate_module(modname, functions, global_table, out_name, reflect_checks, opts=None, source_names=None):
     """functions: [(class-or-None, name)].  global_table: name -> predicate(binding) saying that the
-    module-level binding of `name` is the one PyMini gives a meaning to."""
+    module-level binding of `name` is the one PyMini gives a meaning to.
+    source_names: {(class-or-None, name): name in the source} for a PRIVATE module-level function that the
+    tree under test spells differently (found by a structural rule, see gen_uris): its body is translated
+    under the name the proofs know.  Only for functions no other translated function calls."""
     path = find_source(modname)
     src = open(path, encoding="utf-8").read()
     tree = ast.parse(src, filename=path)
+    if source_names:
+        tree = _rename_defs(tree, source_names)
     binds = module_bindings(tree)
     translated = {(c, f) for c, f in functions}
     classes = {c for c, _ in functions if c}
@@ -934,6 +939,25 @@ def translate_module(modname, functions, global_table, out_name, reflect_checks,
         open(tmp, "w").write(text)
         os.replace(tmp, out)
     return out
+
+
+def _rename_defs(tree, source_names):
+    """The module-level `def <source name>` of each entry renamed to the name the proofs know (in the parsed
+    tree only).  Fail-closed: the new spelling must be defined exactly once, the known one not at all, and no
+    translated text may mention the new spelling (a caller would then look up a name PyMini's program lacks)."""
+    for (cls, name), src_name in source_names.items():
+        if cls is not None or src_name == name:
+            continue
+        defs = [n for n in tree.body if isinstance(n, (ast.FunctionDef, ast.AsyncFunctionDef)) and n.name == src_name]
+        clash = [n for n in ast.walk(tree) if (isinstance(n, (ast.FunctionDef, ast.AsyncFunctionDef, ast.ClassDef))
+                                               and n.name == name) or (isinstance(n, ast.Name) and n.id == name)]
+        if len(defs) != 1 or clash:
+            raise TranslateError(f"{name}: cannot take {src_name} for it ({len(defs)} definitions, {len(clash)} clashes)")
+        defs[0].name = name
+        for n in ast.walk(tree):       # its callers (not translated themselves) keep working on the renamed tree
+            if isinstance(n, ast.Name) and n.id == src_name:
+                n.id = name
+    return tree
 
 
 def poison(out_name, why):
@@ -1067,17 +1091,34 @@ def _reflect_uris():
 URIS_FUNCTIONS = [(None, "_normalize_win_path"), (None, "to_fs_path"), (None, "uri_scheme")]
 
 
+def _uris_helper_name():
+    """`_normalize_win_path` is private: should the tree spell it differently, it is the ONE private
+    module-level function that both from_fs_path and uri_with call (the same rule as harness/priv.py, on the
+    source text).  None when the known name is there or the rule does not single out one function; the
+    translation is compared with the hand model by the kernel either way."""
+    tree = ast.parse(open(find_source("pygls.uris"), encoding="utf-8").read())
+    defs = {n.name: n for n in tree.body if isinstance(n, ast.FunctionDef)}
+    if "_normalize_win_path" in defs or "from_fs_path" not in defs or "uri_with" not in defs:
+        return None
+    def called(fn):
+        return {c.func.id for c in ast.walk(fn) if isinstance(c, ast.Call) and isinstance(c.func, ast.Name)}
+    both = [n for n in called(defs["from_fs_path"]) & called(defs["uri_with"]) if n.startswith("_") and n in defs]
+    return both[0] if len(both) == 1 else None
+
+
 def gen_uris():
     def re_import(b):
         return b == ("import", "re", None)
     try:
+        alias = _uris_helper_name()
         return translate_module(
             "pygls.uris", URIS_FUNCTIONS,
             {"IS_WIN": _is_from("pygls", "IS_WIN"),
              "RE_DRIVE_LETTER_PATH": _is_drive_re,
              # pygls.uris.urlparse wraps urllib: not translated, an oracle of the equivalence theorems
              "urlparse": lambda b: b == ("def",)},
-            "AstUris.v", _reflect_uris)
+            "AstUris.v", _reflect_uris,
+            source_names={(None, "_normalize_win_path"): alias} if alias else None)
     except Exception as e:
         poison("AstUris.v", repr(e))
         raise
